@@ -1,3 +1,213 @@
-"""placeholder (replaced below by the real extractor/runner)"""
-def run(scratch, ob, logdir):
-    return {"status": "undecided", "reason": "verus unit not built yet", "checks": 0, "failed": [], "covers": [0, 0], "time_s": None}, {"cmd": "", "wall_s": 0, "rc": 0}
+"""Verus unit: mechanical extraction of real functions into a verus!{} file, on every run.
+
+The extractor copies the listed items out of the snapshot token for token and splices spec
+text (from /verif/verus/<unit>.spec.json) in at three kinds of place only:
+  * between a function's signature and its body  (requires / ensures), naming the return value
+    `-> T` => `-> (r: T)`  (Verus syntax for referring to the result),
+  * at a loop head (invariant / ensures / decreases), naming the loop variable where the source
+    has `_`  (the invariant must mention it),
+  * as a `proof { .. }` statement at the start of a loop body (ghost code, erased).
+After building the file it *erases* those spec constructs again with an independent routine and
+compares the remaining tokens with the tokens of the source functions: any difference (other
+than the listed renames) aborts the unit as undecided.  Dropped items are listed in the
+evidence.  A missing item or changed signature => undecided (exit 2), never a violation.
+"""
+import json
+import re
+import subprocess
+import time
+from pathlib import Path
+
+from rsscan import AnchorLost, find_item, mask, locate_fn
+
+VERIF = Path(__file__).resolve().parent.parent
+
+TOKEN_RE = re.compile(r"[A-Za-z_][A-Za-z0-9_]*|\d+|'[A-Za-z_]\w*|::|->|=>|==|!=|<=|>=|&&|\|\||\.\.|[^\sA-Za-z0-9_]")
+
+
+def tokens(code: str):
+    return TOKEN_RE.findall(mask(code))
+
+
+def _strip_attrs_and_docs(text: str) -> str:
+    out = []
+    for line in text.splitlines():
+        if re.match(r"\s*(///|//!|//|#\[)", line):
+            continue
+        out.append(line)
+    return "\n".join(out)
+
+
+def build(scratch: Path, spec: dict):
+    """Return (verus_source, provenance) or raise AnchorLost."""
+    src_path = scratch / spec["source"]
+    src = src_path.read_text()
+    parts, prov = [], {"source": spec["source"], "items": [], "dropped": spec.get("dropped", []), "renames": []}
+    # 1. type definitions, copied without attributes
+    for it in spec["types"]:
+        ls, hs, bo, ie = find_item(src, it["header"])
+        text = src[hs:ie]
+        # the visibility keyword before the header (e.g. `pub struct`)
+        pre = src[ls:hs]
+        text = pre.lstrip() + text if pre.strip() in ("pub", "pub(crate)") else text
+        for a, b in it.get("replace", []):
+            if a not in text:
+                raise AnchorLost(f"{spec['source']}: expected {a!r} in {it['header']}")
+            text = text.replace(a, b)
+            prov["renames"].append([a, b])
+        parts.append(text)
+        prov["items"].append(it["header"])
+    # 2. functions of the impl block
+    fn_texts, orig_tokens = [], []
+    for f in spec["fns"]:
+        ls, hs, bo, ie = locate_fn(src, f["name"], spec["impl"])
+        sig, body = src[ls:bo], src[bo:ie]
+        sig = _strip_attrs_and_docs(sig)
+        orig_tokens.append((f["name"], tokens(sig + body)))
+        # name the return value
+        m = re.search(r"->\s*(.+?)\s*$", sig, re.S)
+        if not m:
+            raise AnchorLost(f"fn {f['name']}: no return type")
+        ret = m.group(1)
+        if f.get("ret_type") and f["ret_type"].replace(" ", "") != ret.replace(" ", ""):
+            raise AnchorLost(f"fn {f['name']}: return type changed ({ret!r}, expected {f['ret_type']!r})")
+        sig2 = sig[: m.start()] + f"-> (r: {ret})\n" + "        " + f["spec"].strip() + "\n    "
+        body2 = body
+        for lp in f.get("loops", []):
+            if body2.count(lp["head"]) != 1:
+                raise AnchorLost(f"fn {f['name']}: loop head {lp['head']!r} not found exactly once")
+            i = body2.index(lp["head"])
+            j = body2.index("{", i + len(lp["head"]) - 1) if not lp["head"].rstrip().endswith("{") else i + len(lp["head"]) - 1
+            head_new = lp.get("head_renamed", lp["head"]).rstrip().rstrip("{").rstrip()
+            if "head_renamed" in lp:
+                prov["renames"].append([lp["head"].strip(), lp["head_renamed"].strip()])
+            body2 = (body2[:i] + head_new + "\n            " + lp["spec"].strip() + "\n        {"
+                     + ("\n            " + lp["body_prefix"].strip() if lp.get("body_prefix") else "") + body2[j + 1:])
+        fn_texts.append((f["name"], sig2 + body2))
+        prov["items"].append(f"{spec['impl']} :: fn {f['name']}")
+    impl_block = spec["impl"] + " {\n" + spec.get("impl_prefix", "") + "\n" + "\n\n".join(t for _, t in fn_texts) + "\n}"
+    out = spec["prelude"] + "\n" + "\n\n".join(parts) + "\n\n" + impl_block + "\n" + spec.get("postlude", "} // verus!\nfn main() {}\n")
+    # 3. independent erasure check
+    for (name, otoks), (_, vtext) in zip(orig_tokens, fn_texts):
+        etoks = tokens(erase_spec(vtext))
+        etoks = _normalise(etoks, spec)
+        otoks = _normalise(otoks, spec)
+        if etoks != otoks:
+            k = next((i for i, (a, b) in enumerate(zip(etoks, otoks)) if a != b), min(len(etoks), len(otoks)))
+            raise AnchorLost(f"extraction check failed for fn {name}: exec tokens differ at {k}: {etoks[k-3:k+4]} vs {otoks[k-3:k+4]}")
+    return out, prov
+
+
+def _normalise(toks, spec):
+    """apply the listed token renames (loop variable `_` -> name) to both sides"""
+    ren = {a: b for a, b in spec.get("token_renames", [])}
+    return [ren.get(t, t) for t in toks]
+
+
+def erase_spec(vtext: str) -> str:
+    """Remove Verus-only constructs from a function: the `(r: T)` result name, spec clauses
+    between a header and its `{`, `proof { .. }` statements.  Independent of build()."""
+    t = vtext
+    m_t = mask(t)
+    # result name
+    m = re.search(r"->\s*\(\s*\w+\s*:\s*", m_t)
+    if m:
+        # find the matching ')'
+        depth, k = 1, m.end()
+        while depth:
+            if m_t[k] == "(":
+                depth += 1
+            elif m_t[k] == ")":
+                depth -= 1
+            k += 1
+        t = t[: m.start()] + "-> " + t[m.end(): k - 1] + t[k:]
+    # proof blocks
+    while True:
+        m_t = mask(t)
+        m = re.search(r"\bproof\s*\{", m_t)
+        if not m:
+            break
+        depth, k = 0, m.end() - 1
+        while True:
+            if m_t[k] == "{":
+                depth += 1
+            elif m_t[k] == "}":
+                depth -= 1
+                if depth == 0:
+                    break
+            k += 1
+        t = t[: m.start()] + t[k + 1:]
+    # spec clauses: from a clause keyword up to the next `{` at brace depth 0 of the clause
+    while True:
+        m_t = mask(t)
+        m = re.search(r"\b(requires|ensures|invariant_except_break|invariant|decreases)\b", m_t)
+        if not m:
+            break
+        k, par = m.end(), 0
+        while True:
+            ch = m_t[k]
+            if ch in "([":
+                par += 1
+            elif ch in ")]":
+                par -= 1
+            elif ch == "{" and par == 0:
+                # a `{` that opens a block (not inside an expression like `if c { a } else { b }`):
+                # clause expressions end with `,` before the body; accept the `{` only if the
+                # previous non-space char is `,` or the clause keyword region ended
+                prev = m_t[:k].rstrip()[-1]
+                if prev == ",":
+                    break
+                # skip a braced sub-expression
+                depth = 0
+                while True:
+                    if m_t[k] == "{":
+                        depth += 1
+                    elif m_t[k] == "}":
+                        depth -= 1
+                        if depth == 0:
+                            break
+                    k += 1
+            k += 1
+        t = t[: m.start()] + t[k:]
+    return t
+
+
+def run(scratch: Path, ob: dict, logdir: Path):
+    t0 = time.time()
+    spec = json.loads((VERIF / ob["spec"]).read_text())
+    run_info = {"cmd": "", "wall_s": 0, "rc": None}
+    base = {"checks": 0, "failed": [], "covers": [0, 0], "time_s": None}
+    try:
+        text, prov = build(scratch, spec)
+    except AnchorLost as e:
+        return dict(base, status="undecided", reason=f"anchor lost: {e}"), run_info
+    out_rs = scratch / "verus_unit.rs"
+    out_rs.write_text(text)
+    (logdir / f"{ob['id']}.extracted.rs").write_text(text)
+    cmd = ["verus", str(out_rs), "--output-json", "--time"] + spec.get("verus_args", [])
+    try:
+        p = subprocess.run(cmd, cwd=scratch, capture_output=True, text=True, timeout=ob.get("timeout", 300))
+    except subprocess.TimeoutExpired:
+        return dict(base, status="undecided", reason="verus timeout"), run_info
+    (logdir / f"{ob['id']}.verus.txt").write_text(p.stdout + "\n--- stderr ---\n" + p.stderr)
+    run_info = {"cmd": " ".join(cmd[:1] + ["<extracted>/" + Path(spec["source"]).name] + cmd[2:]), "wall_s": round(time.time() - t0, 1), "rc": p.returncode}
+    try:
+        js = json.loads(p.stdout[p.stdout.index("{"):])
+    except (ValueError, json.JSONDecodeError):
+        return dict(base, status="undecided", reason="verus produced no JSON: " + (p.stderr or p.stdout)[-300:]), run_info
+    vr = js.get("verification-results", {})
+    verified, errors = vr.get("verified", 0), vr.get("errors", 0)
+    times = js.get("times-ms", {})
+    res = dict(base, checks=verified + errors, time_s=(times.get("smt", {}).get("total", 0) or 0) / 1000.0,
+               provenance=prov, verified=verified, errors=errors)
+    msgs = re.findall(r"^error.*(?:\n(?!error|warning|verification results).*){0,12}", p.stderr, re.M)
+    if not vr.get("encountered-vir-error", False) and errors == 0 and verified >= spec["expect_verified"] and vr.get("success", True):
+        res["status"] = "ok"
+    elif vr.get("encountered-vir-error") or (errors == 0 and verified < spec["expect_verified"]):
+        res.update(status="undecided", reason=f"verus did not verify the expected {spec['expect_verified']} items (verified {verified}, errors {errors}): " + " | ".join(m.splitlines()[0] for m in msgs[:3]))
+    else:
+        # a proof obligation generated from the extracted source failed
+        res.update(status="violated", reason="; ".join(m.splitlines()[0] for m in msgs[:4]) or f"{errors} verification errors",
+                   failed=[{"check": "verus", "status": "FAILURE", "description": m.splitlines()[0], "location": (re.search(r"--> (.*)", m) or [None, ""])[1]} for m in msgs[:6]],
+                   output=p.stderr[-5000:])
+    return res, run_info
